@@ -261,7 +261,7 @@ def obligations(tier, seed):
         "parse_accept_header[LanguageAccept]": ["en;q={}", "en-{}"], "parse_accept_header[CharsetAccept]": ["utf-8;q={}"],
         "parse_cache_control_header": ["max-age={}", 'private="{}"'], "parse_csp_header": ["default-src {}"],
         "parse_etags": ['W/"{}"', '"{}", "b"'], "parse_if_range_header": ['W/"{}"'],
-        "parse_range_header": ["bytes={}", "bytes=0-1,{}"], "parse_content_range_header": ["bytes {}", "bytes 0-{}"],
+        "parse_range_header": ["bytes={}", "bytes=0-1,{}"], "parse_content_range_header": ["bytes {}", "bytes 0-{}", "bytes {}/9", "bytes 1-2{}/9", "bytes {}-5/9"],
         "Authorization.from_header": ["Basic {}", "Digest k={}", "Bearer {}"], "WWWAuthenticate.from_header": ["Digest k={}", 'Digest k="{}"'],
         "get_host": ["{}:80", "[{}]"], "host_is_trusted": ["{}.example.org", "{}:80"],
         "Request.args": ["a={}&b=1"],
@@ -271,6 +271,7 @@ def obligations(tier, seed):
                             "--b\r\nContent-Disposition: form-data; name=a; filename=f\r\nContent-Type: {}\r\n\r\nx\r\n--b--\r\n",
                             "--b\r\nContent-Disposition: form-data; name=a\r\n\r\n{}\r\n--b--\r\n"],
         "form[urlencoded]": ["a={}&b=1", "{}=1"],
+        "parse_age": ["8640000000000{}", "{}99999999999999", "-{}"],
         "parse_date": ["1 Jan {} 00:00 GMT", "{} Jan 2024 00:00 GMT", "1 {} 2024 00:00", "1 Jan 2024 {} GMT", "1 Jan 2024 00:00 {}",
                        "Mon, {} 2024 00:00:00 GMT", "Sunday, 06-Nov-{} 08:49:37 GMT", "29 Feb {}00 0:0",
                        "1 Jan 99999999{} 0:0", "1 Jan 2024 99999999{}:0", "1 Jan 2024 0:0 +99999999999{}",
